@@ -62,7 +62,11 @@ func runBody(s *Scenario, obs *Obs, cancelAfterMS int64) func() {
 				cancel()
 			})
 		}
-		id, data, err := pw.Execute(ctx, s.Input)
+		var in any = s.Input
+		if s.RawInput != nil || s.Input == nil {
+			in = s.RawInput
+		}
+		id, data, err := pw.Execute(ctx, in)
 		obs.ID, obs.Data, obs.Err = id, data, err
 		obs.Returned = true
 		obs.RetT = vrt.NowMS()
@@ -165,6 +169,9 @@ func asNotif(v any) (notif, bool) {
 func traceUpTo(s *Scenario, w *env.World, upto int) *traceView {
 	r := &RefRun{Prog: s.Prog, Script: s.Script, Input: canon(s.Input), St: map[string]Status{}, Outcome: map[string]*StepOutcome{},
 		OutSt: map[string]Status{}, OutData: map[string]any{}, Unique: true}
+	if s.NormInput != nil {
+		r.Input = s.NormInput
+	}
 	r.Store = map[string]any{"input": r.Input, "steps": map[string]any{}}
 	tv := &traceView{RefRun: r, producedAt: map[string]int{}, failedAt: map[string]int{}}
 	ids := map[string]string{}
